@@ -47,7 +47,7 @@ def register(reg):
     reg.names['file_exists'] = FnSpec('file_exists', params=[('p', ANY)], ret=BOOL, pure=True, assumed=True,
                                       note='ghost: the path exists at the time of the call')
 
-CONTRACTS = [_mc_add, _mc_get, _c12._get_module_info, _c08._sig_key, _loading.load_python_module]
+CONTRACTS = [_mc_add, _mc_get, _c12._get_module_info, _c08._sig_key, _loading.load_python_module, _loading.parse_and_get_code]
 
 
 def _replay_mtime(inp):
